@@ -56,6 +56,15 @@ def gen_case(rng, spec):
     maxlen = 3 if spec.get("tier") == "quick" else 4
     if len(g["V"]) >= 3:
         maxlen -= 1
+    if R in ("Float", "Real", "Q") and rng.random() < 0.2:
+        g = dict(g, rules=[[(-w if rng.random() < 0.35 else w), h, b] for w, h, b in g["rules"]])  # a field: negative weights
+        # parallel rules (same head and body) whose weights cancel EXACTLY leave a rule that is structurally present
+        # with total weight zero; whether such a rule "is" a unary rule / cycle is outside what C06/C07 state
+        tot = {}
+        for w, h, b in g["rules"]:
+            tot[(h, tuple(b))] = tot.get((h, tuple(b)), 0) + w
+        if any(v == 0 for v in tot.values()):
+            g = dict(g, rules=[[abs(w), h, b] for w, h, b in g["rules"]])
     return {
         "g": {k: g[k] for k in ("S", "V", "rules")},
         "R": R,
@@ -175,6 +184,9 @@ def run_case(case, ctx, mode):
         g = GG.rename(g, case["rename"])
     an = GG.analyse(g)
     cls = list(an["classes"]) + ([f"names:{case['rename']}"] if case.get("rename") else [])
+    signed = any(w < 0 for w, _, _ in g["rules"])
+    if signed:
+        cls.append("negative-weights")
     fp = codec.fingerprint(case)
     rng = random.Random(case["xseed"])
     api_build = "build"
@@ -245,7 +257,7 @@ def run_case(case, ctx, mode):
                 break
             h, w = lib.want_value(R, w2), want[x]
             good = lib.same(R, h, w, exact=ex2, tol=1e-8)
-            if good and O.isz(w) and not O2.isz(w2):
+            if good and O.isz(w) and not O2.isz(w2) and not signed:
                 good = False
             if not good:
                 nbad += 1
